@@ -8,6 +8,9 @@
 
   c17u <tag> <ver> <local> <ids> <now> <o1> <o2> <state>       UpdateCheckpoint
   c17g <tag> <ver> <ids> <live> <before> <orders> <state>      gcStaleCp   (orders = o{;o}, o = "." | nat{,nat})
+  c17m <tag> <ver> <ids> <desired> <newName> <nows> <state> <frontier> <journal> <index> <latest>
+        resolveBisyncCheckpointNameWithClient; desired = sync|pipeline|parallel; nows = "." | int{,int};
+        the last four fields: recovery state of the namespace the hash resolves to (see Drive/C14.lean)
 
   answer (every line prefixed "#<tag> "):
      n=<number of write requests> sp=<resume position before>
@@ -16,13 +19,19 @@
   position = none | err | <offset>@<db>
 -/
 import GunYu.Model.Checkpoint
+import GunYu.Model.Migrate
+import GunYu.Gen.CheckpointConsts
+import GunYu.Drive.C14
 namespace GunYu.Drive.C17
 open GunYu GunYu.Checkpoint
 
-def hashKey : Bytes := str "redis-gunyu-checkpoint-hash"
+/-- regenerated from config/var.go -/
+def hashKey : Bytes := Gen.cpHashKey
 
 def suffixes : List (Kind × Bytes) :=
-  [(.runid, str "_runid"), (.version, str "_version"), (.offset, str "_offset"), (.mtime, str "_mtime")]
+  -- regenerated from pkg/redis/checkpoint/checkpoint_info.go
+  [(.runid, Gen.cpSuffixRunId), (.version, Gen.cpSuffixVersion), (.offset, Gen.cpSuffixOffset),
+   (.mtime, Gen.cpSuffixMtime)]
 
 def parseField (name val : Bytes) : Entry :=
   match suffixes.find? (fun p => p.2.isSuffixOf name) with
@@ -135,6 +144,23 @@ def handle : List String → Option (List String)
       let orders ← ordersList? orders
       let (dbs, t) ← state? dbs hash cps
       pure (render tag ver ids dbs t (gcReqs t live before orders))
+    some (r.getD [s!"#{tag} bad-op"])
+  | ["c17m", tag, ver, ids, desired, newName, nows, dbs, hash, cps, frontier, journal, index, latest] =>
+    let r : Option (List String) := do
+      let ver ← Hex.decode ver
+      let ids ← hexList? ids
+      let desired ← if desired == "sync" then some Migrate.BMode.sync
+        else if desired == "pipeline" then some .pipeline
+        else if desired == "parallel" then some .parallel else none
+      let newName ← Hex.decode newName
+      let nows ← if nows == "." then some [] else (nows.splitOn ",").mapM String.toInt?
+      let (dbs, t) ← state? dbs hash cps
+      let fr ← C14.snap? frontier
+      let j ← C14.list? C14.jrec? journal
+      let ix ← C14.list? C14.idx? index
+      let lt ← if latest == "-" then some none else (C14.rec? latest).map some
+      let ns : Frontier.NS := { frontier := fr, journal := j, index := ix, latest := lt }
+      pure (render tag ver ids dbs t (Migrate.migrateReqs ver t ns ids desired newName nows dbs))
     some (r.getD [s!"#{tag} bad-op"])
   | _ => none
 
